@@ -49,9 +49,16 @@ def sym_checks(ctx, name, obj, vl, vt, freq, cj, tol, periodic_tol=None, shapes=
     """the relations of the property on one scatterer"""
     rng = ctx.rng
     shape_list = [((5,), (5,)), ((3, 1), (1, 4)), ((2, 3), (2, 3)), ((), (6,)), ((4, 1), (4, 3))] if shapes else [((4,), (4,)), ((3, 1), (1, 2)), ((2, 1), (2, 2)), ((), (3,))]
-    for sa, sb in shape_list:
-        a = rng.uniform(-2 * np.pi, 2 * np.pi, size=sa)
-        b = rng.uniform(-2 * np.pi, 2 * np.pi, size=sb)
+    # all ordered pairs of a few angles, as flat lists and as a table (the natural way to tabulate a scattering function): the
+    # same angle then occurs several times, consecutively or not, in the incident and in the scattered list
+    few = rng.uniform(-2 * np.pi, 2 * np.pi, size=3 if not shapes else 4)
+    gx, gy = np.meshgrid(few, few, indexing="xy")
+    arrays = [(rng.uniform(-2 * np.pi, 2 * np.pi, size=sa), rng.uniform(-2 * np.pi, 2 * np.pi, size=sb)) for sa, sb in shape_list]
+    arrays += [(gx.ravel(), gy.ravel()), (gy, gx), (np.array([few[0], few[1], few[0], few[0], few[2], few[1]]), np.array([few[1], few[1], few[2], few[1], few[0], few[0]]))]
+    for num_, (a, b) in enumerate(arrays):
+        sa, sb = a.shape, b.shape
+        if num_ >= len(shape_list):
+            ctx.count(f"{name}:repeated_angles")
         r = obj(a, b, freq)
         rt = obj(b, a, freq)
         scale = max(np.abs(r[k]).max() for k in KEYS) + 1e-300
@@ -84,7 +91,7 @@ def sym_checks(ctx, name, obj, vl, vt, freq, cj, tol, periodic_tol=None, shapes=
             if max(np.abs(rs[k] - r[k]).max() for k in KEYS) > tol * scale:
                 ctx.violate("side-drilled hole: values depend on more than the difference of the angles", cj, {"kind": "difference_only", "scatterer": name})
         # whole-radian angles held as integers (a Python int, an integer array) denote the same angles as their float values
-        if (sa, sb) == shape_list[0]:
+        if num_ == 0:
             ai, bi = rng.integers(-6, 7, size=sa), rng.integers(-6, 7, size=sb)
             rf = obj(ai.astype(float), bi.astype(float), freq)
             for lab, (aa, bb) in (("integer arrays", (ai, bi)), ("an integer scattered angle only", (ai.astype(float), bi)), ("Python ints", (int(ai.ravel()[0]), int(bi.ravel()[0])))):
@@ -101,7 +108,7 @@ def sym_checks(ctx, name, obj, vl, vt, freq, cj, tol, periodic_tol=None, shapes=
         # every non-empty subset of the four keys on the first shape, three subsets on the others
         import itertools
         all_subs = [list(c) for m_ in range(1, 5) for c in itertools.combinations(KEYS, m_)]
-        for sub in (all_subs if (sa, sb) == shape_list[0] else ([["LL"], ["LT", "TL"], ["TT", "LL", "TL"]] if shapes else [["LT"]])):
+        for sub in (all_subs if num_ == 0 else ([["LL"], ["LT", "TL"], ["TT", "LL", "TL"]] if shapes else [["LT"]])):
             rsub = obj(a, b, freq, to_compute=set(sub))
             if any(k not in rsub or not np.array_equal(np.asarray(rsub[k]), np.asarray(r[k])) for k in sub):
                 # optimised kernels may differ in rounding: allow 1e-12
